@@ -63,3 +63,57 @@ def violations_with_patch(diff_path, props=None, repo="/repo", tier="quick"):
         return "ok", out, info
     finally:
         shutil.rmtree(tmp, ignore_errors=True)
+
+
+def _one(args):
+    kind, ident, path, prop, rx = args
+    import importlib
+    from props import RULE_MODULES
+    for m in RULE_MODULES:
+        importlib.import_module(m)
+    status, out, info = violations_with_patch(path, [prop], tier="quick")
+    keys = [k[0] for k in out.get(prop, [])]
+    return kind, ident, status, keys, rx
+
+
+def live_selftest(prop, current_violation_keys):
+    """Thorough tier: apply every checker mutant / seeded breakage that concerns `prop` and every benign
+    refactoring to a scratch copy of the current /repo, re-extract through the driver and run the property's
+    rules. Mutants and seeded breakages must be reported, benign refactorings must not add any report."""
+    import glob
+    import json
+    import re
+    from concurrent.futures import ProcessPoolExecutor
+    from engine import Inst, VERIF
+    jobs = []
+    mi = os.path.join(VERIF, "mutants", "index.json")
+    if os.path.exists(mi):
+        for e in json.load(open(mi)):
+            for p, rx in e["expect"]:
+                if p == prop:
+                    jobs.append(("mutant", e["id"], os.path.join(VERIF, "mutants", e["id"] + ".diff"), prop, rx))
+    for d in sorted(glob.glob(os.path.join(VERIF, "seeded", "*", "patch.diff"))):
+        sid = os.path.basename(os.path.dirname(d))
+        if sid.split("-")[0] == prop:
+            jobs.append(("seeded", sid, d, prop, None))
+    for d in sorted(glob.glob(os.path.join(VERIF, "benign", "*.diff"))):
+        jobs.append(("benign", os.path.basename(d)[:-5], d, prop, None))
+    out = []
+    with ProcessPoolExecutor(max_workers=8) as ex:
+        for kind, ident, status, keys, rx in ex.map(_one, jobs):
+            if status != "ok":
+                out.append(Inst("SELFTEST-LIVE", "%s:%s:skipped" % (kind, ident), True, "", "patch not usable on the current tree (%s): skipped" % status, "-"))
+                continue
+            if kind == "mutant":
+                hit = [k for k in keys if re.search(rx, k)]
+                out.append(Inst("SELFTEST-LIVE", "mutant:%s" % ident, bool(hit), "mutants/%s.diff" % ident,
+                                "expected instance /%s/ %s" % (rx, "reported: %s" % hit[0] if hit else "NOT reported; reported instead: %s" % keys[:3]), "the mutated instance is named"))
+            elif kind == "seeded":
+                new = [k for k in keys if k not in current_violation_keys]
+                out.append(Inst("SELFTEST-LIVE", "seeded:%s" % ident, bool(new), "seeded/%s/patch.diff" % ident,
+                                "independently seeded breakage of this property %s" % ("is reported: %s" % new[:2] if new else "is NOT reported"), "reported"))
+            else:
+                new = [k for k in keys if k not in current_violation_keys]
+                out.append(Inst("SELFTEST-LIVE", "benign:%s" % ident, not new, "benign/%s.diff" % ident,
+                                "behaviour-preserving refactoring %s" % ("raises no alarm" if not new else "raises FALSE ALARMS: %s" % new[:3]), "silent"))
+    return out
